@@ -99,8 +99,19 @@ class _SDD:
         if t is None:
             t = GroupAddressDPT()
             t._ga_dpts[cls.ga.raw] = dpt  # GroupAddressDPT.set() resolves by number/name; classes without a distinct number are reached directly
+            t._ga_dpts[cls.other.raw] = D.BY_NAME["DPT2ByteFloat"]
             cls.tables[dpt] = t
         return t
+
+    other = GroupAddress(2)
+
+    @classmethod
+    def disturb(cls, table):
+        """History: ANOTHER address of the same table has just received an undecodable payload (a declared, logged error that
+        leaves per-table state behind); decoding for the address under test must not depend on it."""
+        from xknx.dpt import DPTArray
+        tg = Telegram(destination_address=cls.other, payload=GroupValueWrite(DPTArray((1, 2, 3))))
+        table.set_decoded_data(tg)
 
 
 def run_impl(case):
@@ -121,6 +132,11 @@ def run_impl(case):
         logging.getLogger("xknx.ga_dpt").disabled = True
         for i, (k, data) in enumerate(D.expand(spec)):
             n += 1
+            if i % 3 == 0:
+                try:
+                    _SDD.disturb(table)
+                except Exception:  # noqa: BLE001  judged on the address under test below
+                    pass
             svc = (GroupValueWrite if i % 2 == 0 else GroupValueResponse)(D.mk_payload(k, data))
             tg = Telegram(destination_address=_SDD.ga, payload=svc)
             try:
